@@ -244,6 +244,20 @@ impl EquivalenceClass {
         self.exprs.is_empty() || (self.exprs.len() == 1 && self.constant.is_none())
     }
 
+    /// Returns this class as it holds on the side of an outer join that can be
+    /// padded with NULLs: the members are still equal to each other (they are
+    /// all NULL in the padded rows), but the class is no longer constant, and
+    /// literal members, which are not NULL in the padded rows, are dropped.
+    fn for_null_extended_side(&self) -> Self {
+        let mut cls = Self::default();
+        for expr in &self.exprs {
+            if expr.downcast_ref::<Literal>().is_none() {
+                cls.exprs.insert(Arc::clone(expr));
+            }
+        }
+        cls
+    }
+
     /// Adds the given offset to all columns in the expressions inside this
     /// class. This is used when schemas are appended, e.g. in joins.
     pub fn try_with_offset(&self, offset: isize) -> Result<Self> {
@@ -814,9 +828,26 @@ impl EquivalenceGroup {
     ) -> Result<Self> {
         let group = match join_type {
             JoinType::Inner | JoinType::Left | JoinType::Full | JoinType::Right => {
+                // A side that the join can pad with NULLs (the left side of a
+                // RIGHT / FULL join, the right side of a LEFT / FULL join) keeps
+                // its equalities, but its constants do not hold in the padded rows.
+                let left_classes: Vec<EquivalenceClass> = match join_type {
+                    JoinType::Right | JoinType::Full => self
+                        .iter()
+                        .map(EquivalenceClass::for_null_extended_side)
+                        .collect(),
+                    _ => self.iter().cloned().collect(),
+                };
+                let right_classes: Vec<EquivalenceClass> = match join_type {
+                    JoinType::Left | JoinType::Full => right_equivalences
+                        .iter()
+                        .map(EquivalenceClass::for_null_extended_side)
+                        .collect(),
+                    _ => right_equivalences.iter().cloned().collect(),
+                };
                 let mut result = Self::new(
-                    self.iter().cloned().chain(
-                        right_equivalences
+                    left_classes.into_iter().chain(
+                        right_classes
                             .iter()
                             .map(|cls| cls.try_with_offset(left_size as _))
                             .collect::<Result<Vec<_>>>()?,
